@@ -54,7 +54,13 @@ extern "C" void h_scope_history(void) {
    vp_assert(scope.size() == 0 && !scope[*w->N[0]].is_valid(), 1);
    for (int k = 0; k < C07_K; ++k) {
       pn[k] = vp_pick(3); pt[k] = vp_pick(3);
+      { // interleaved lookups: the name about to be declared is looked up immediately before and immediately after the declaration
+         bool before = false; for (int i = 0; i < k; ++i) if (pn[i] == pn[k]) before = true;
+         vp_assert(scope[*w->N[pn[k]]].is_valid() == before, 14);
+      }
       d[k] = w->declare(pn[k], pt[k]);
+      { auto now = scope[*w->N[pn[k]]]; vp_assert(now.is_valid(), 15);
+        if (now.is_valid()) { auto sel = now.get()[*w->TY[pn[k]][pt[k]]]; vp_assert(sel.is_valid(), 16); } }
       int n = k + 1;
       // the scope lists every declaration in entry order; its type is the product of their types
       vp_assert(scope.elements().size() == (std::size_t)n, 2);
